@@ -13,6 +13,10 @@ def calleeOf (idx : Nat) (j : Json) : Callee :=
   | "unpicklable" => .unpicklable
   | "aftersend" => .afterSendDeath idx
   | "midsend" => .midSendDeath idx
+  | "spawn" => .spawns idx
+  -- a child that stays alive for a while after `_inner` has sent (a non-daemon thread of the callee is still running): for the
+  -- protocol an ordinary return / raise — the model never bounds the time between the end of `send` and the child's exit
+  | "linger" => (match jS (jAt j 1) with | "exc" => .raiseExc idx | _ => .ret idx)
   | _ => .ret idx
 
 def obsJ : Obs → Json
